@@ -534,5 +534,14 @@ mut("19-generator-keeps-last-draw", "C19", "global-write", ("internal/encoding/t
 mut("14N-excluded-lookup-via-variable", "C14", None, ("internal/cmd/tlgen/tlparser/parser.go", "		if _, found := excludedTypes[typSpace]; found {", "		_, isBuiltin := excludedTypes[typSpace]\n		if isBuiltin {"))
 mut("05N-decrypt-wraps-cipher-error", "C05", None, ("internal/aes_ige/aes.go", "	out := make([]byte, len(msg))\n	if err := c.doAES256IGEdecrypt(msg, out); err != nil {\n		return nil, err\n	}", "	out := make([]byte, len(msg))\n	if err := c.doAES256IGEdecrypt(msg, out); err != nil {\n		return nil, errors.Wrap(err, \"decrypting\")\n	}"), ("internal/aes_ige/aes.go", "import (\n", "import (\n	\"github.com/pkg/errors\"\n"))
 
+# --- ninth round ----------------------------------------------------------------------------------------
+mut("01-popint-direct-read", "C01", "zero-length-is-no-read", ("internal/encoding/tl/cursor_r.go", "func (d *Decoder) PopRawBytes(size int) []byte {\n", "func (d *Decoder) seedPeek(n int) []byte {\n	val := make([]byte, n)\n	if _, err := d.buf.Read(val); err != nil {\n		d.err = err\n	}\n	return val\n}\n\nfunc (d *Decoder) PopRawBytes(size int) []byte {\n"))
+mut("03-transport-refuses-old-session", "C03", "no-refusal-of-its-own", ("internal/transport/transport.go", "	mod := msg.GetMsgID() & 3", "	if msg.GetSeqNo() < 0 {\n		return nil, fmt.Errorf(\"negative seq_no\")\n	}\n	mod := msg.GetMsgID() & 3"))
+mut("07-makerequest-retries-dh-fail", "C07", "reissue:only-when-asked", ("mtproto.go", "	case *errorSessionConfigsChanged:\n		return m.makeRequest(data, expectedTypes...)\n", "	case *errorSessionConfigsChanged, *objects.DHGenFail:\n		return m.makeRequest(data, expectedTypes...)\n"))
+mut("09-packed-result-delivered-wrapped", "C09", "unwrapped-from-gzip", ("mtproto.go", "		obj := message.Obj\n		if v, ok := obj.(*objects.GzipPacked); ok {\n			obj = v.Obj\n		}\n", "		obj := message.Obj\n"))
+mut("17-old-table-wins", "C17", "configured-address-wins", ("mtproto.go", "	if m.dclist == nil {\n		m.dclist = make(map[int]string)\n	}\n	for k, v := range in {\n		m.dclist[k] = v\n	}\n", "	merged := make(map[int]string)\n	for k, v := range in {\n		merged[k] = v\n	}\n	for k, v := range m.dclist {\n		merged[k] = v\n	}\n	m.dclist = merged\n"))
+mut("17N-table-rebuilt-aside-in-order", "C17", None, ("mtproto.go", "	if m.dclist == nil {\n		m.dclist = make(map[int]string)\n	}\n	for k, v := range in {\n		m.dclist[k] = v\n	}\n", "	merged := make(map[int]string)\n	for k, v := range m.dclist {\n		merged[k] = v\n	}\n	for k, v := range in {\n		merged[k] = v\n	}\n	m.dclist = merged\n"))
+mut("06-service-send-may-drop", "C06", "read-message-is-handed-on", ("mtproto.go", "		m.serviceChannel <- obj\n		return nil\n", "		select {\n		case m.serviceChannel <- obj:\n		default:\n		}\n		return nil\n"))
+
 json.dump(M, open('/verif/selftest/mutations.json', 'w'), indent=1, ensure_ascii=False)
 print(len(M), "mutations")
